@@ -3,7 +3,7 @@
    the theorem holds for EVERY rot and pick, so nothing is assumed about helpers.quaternion_from_two_vectors*, arccos,
    numpy's RNG or scipy's Rotation. *)
 From Coq Require Import ZArith List Bool Arith.
-From Mofun Require Import Model.Atoms Model.Geom Model.Find Proofs.FindProofs.
+From Mofun Require Import Model.Atoms Model.Geom Model.Find Proofs.FindProofs Proofs.FindDistinct.
 Import ListNotations.
 Open Scope Z_scope.
 
@@ -29,6 +29,27 @@ Print Assumptions C01_rotation_orthogonal.
 Theorem C01_rotation_proper : forall q p r, cross (rotapply q p) (rotapply q r) = vscale (qn2 q) (rotapply q (cross p r)).
 Proof. exact rot_proper. Qed.
 Print Assumptions C01_rotation_proper.
+
+(* "distinct atoms": on the property's domain no match lists an atom twice.  The domain, as a computable test on (cell, pattern, atol,
+   R): R bounds the pattern diameter (every pair distance <= R); pattern atoms are pairwise farther apart than atol; every non-zero
+   lattice vector with coefficients in -2..2 is longer than R + atol (implied by "every perpendicular cell width exceeds the pattern
+   diameter plus twice the tolerance").  Outside it the statement is false of the code: a pattern as long as the cell is matched
+   by an atom and its own image. *)
+Theorem C01_distinct : forall S cell P tol R rot pick rtol hints idx pos q, domain_b cell P tol R = true ->
+  In (idx, pos, q) (find rot pick S cell P tol rtol hints) -> NoDup idx.
+Proof. exact find_distinct_b. Qed.
+Print Assumptions C01_distinct.
+Example C01_distinct_domain_nonvacuous :
+  domain_b ((40960, 0, 0), (8192, 40960, 0), (-4096, 6144, 40960)) [(6%nat, (0, 0, 0)); (7%nat, (5120, 0, 0)); (8%nat, (5120, 4096, 1024))]
+           {| tn := 4096; td := 20 |} 6700 = true.
+Proof. exact distinct_domain_nonvacuous. Qed.
+(* the hypothesis is needed: a one-atom cell and a two-atom pattern as long as the cell -- the match is (0, 0) *)
+Example C01_distinct_needs_the_domain :
+  let S := [(0%nat, (2048, 2048, 2048))] in let cell := ((12288, 0, 0), (0, 32768, 0), (0, 0, 32768)) in
+  let P := [(0%nat, (0, 0, 0)); (0%nat, (12288, 0, 0))] in let tol := {| tn := 4096; td := 20 |} in
+  map (fun r => fst (fst r)) (find (rot_model None (a1 P None) (a2 P None)) (fun _ => 0%nat) S cell P tol 100000 None) = [[0%nat; 0%nat]]
+  /\ domain_b cell P tol 12288 = false.
+Proof. vm_compute. split; reflexivity. Qed.
 
 (* non-vacuity: a two-atom pattern found across a cell corner by the default quaternion construction of the model *)
 Example C01_nonvacuous :
